@@ -384,6 +384,11 @@ class EAbstractSet(ECollection):
 
     append = add
 
+    def __setitem__(self, index, item):
+        if not isinstance(index, slice):
+            self.check(item)  # before the previous element is popped
+        super().__setitem__(index, item)
+
     def update(self, others):
         others = list(others)  # iterated more than once
         check = self.check
